@@ -1,6 +1,6 @@
 """Bounded stand-in for C01 (edit primitives) — never counted as proved.
 
-Two kinds of checks, both against the REAL functions:
+Three kinds of checks, all against the REAL functions:
  (a) the deductive contracts of substitute / insert / delete evaluated in the concrete
      interpretation (same contract text the verifier discharges), on the property's own small
      scope; this is also the replay harness of solver counter-models;
@@ -9,7 +9,7 @@ Two kinds of checks, both against the REAL functions:
  (c) the same string-level oracle (own encoder, strict one-hot decoder - no argmax) for ALL five
      primitives over the input classes (a)/(b) never pass: X of 8 dtypes (int8 float16/32/64 int32/64
      uint8 bool) x 4 memory layouts (contiguous, slice of a longer tensor, stride-0 expanded batch,
-     permuted), batch 1-5, sequence length 1-150, motif length up to L+1, motif dtype different from
+     permuted), batch 1-6, sequence length 1-150, motif length up to L+1, motif dtype different from
      X, motif that is a view of X itself, permuted alphabets, default alphabet left out, start
      omitted / None / numpy integer; requests that must be REJECTED rather than broadcast or encoded
      loosely: motif batch neither 1 nor len(X) (also when it divides len(X)), other alphabet size,
@@ -36,11 +36,11 @@ from vf.concrete import check_concrete, to_json, from_json, LETTERS
 
 SCOPE = {
     'quick': 'contracts: alphabets 2-4; every sequence of length <= 4 (sampled per length to 12) x motif length <= 3 x start in [-3, L+3] x {str, tensor shared, tensor per-example} motifs; delete: every (start, end) in [-2, L+2]^2; 300 seeded random larger cases. '
-             'string oracle: 8 dtypes x 4 memory layouts x 5 primitives grid at boundary positions; multisubstitute exhaustively for L <= 4 x 1-3 motifs (len 1-2, str/tensor/per-example, int or list spacing in [-1, 2], 3 motifs [-1, 1]) x start in [-3, L+3] + None; '
-             'randomize exhaustively for alphabets 2,4 x L <= 4 x (start, end) in [-3, L+3]^2 x seed int/RandomState/None; 1200 + 500 + 400 seeded random variant cases (dtype, layout, batch 1-5, L <= 150, permuted/default alphabet, numpy indices, '
+             'string oracle: 8 dtypes x 4 memory layouts x 5 primitives grid at boundary positions; must-reject grid (motif batch not in {1, B} incl. divisors/multiples, other alphabet size, unknown character) for batch 1,2,3,4,6; multisubstitute exhaustively for L <= 4 x 1-3 motifs (len 1-2, str/tensor/per-example, int or list spacing in [-1, 2], 3 motifs [-1, 1]) x start in [-3, L+3] + None; '
+             'randomize exhaustively for alphabets 2,4 x L <= 4 x (start, end) in [-3, L+3]^2 x seed int/RandomState/None; 2000 + 800 + 600 seeded random variant cases (dtype, layout, batch 1-6, L <= 150, permuted/default alphabet, numpy indices, '
              'must-reject motifs: wrong batch / alphabet size / unknown character; probs forms) + 250 plain multisubstitute/randomize cases; _validate_input conformance on int8/float32/bool/int64 tensors',
     'thorough': 'contracts: alphabets 2-6; every sequence of length <= 5 x motif length <= 3 x every start in [-3, L+3]; 5000 seeded random larger cases. '
-                'string oracle: same grid; multisubstitute exhaustively for L <= 5 (spacings [-1, 2]); randomize exhaustively for alphabets 2,3,4,6 x L <= 5; 12000 + 5000 + 4000 seeded random variant cases + 1500 plain ones; _validate_input conformance',
+                'string oracle: same grids; multisubstitute exhaustively for L <= 5 (spacings [-1, 2]); randomize exhaustively for alphabets 2,3,4,6 x L <= 5; 15000 + 6000 + 5000 seeded random variant cases + 1500 plain ones; _validate_input conformance',
 }
 
 
@@ -79,9 +79,13 @@ def run(rep):
     rng = rep.rng
     # cheap, direct-oracle sections first (a few seconds in the quick tier)
     _variants_grid(rep)
+    _reject_grid(rep)
     _small_multisub(rep, thorough)
     _small_randomize(rep, thorough)
     _variants_random(rep, rng, thorough)
+    _multisub_and_randomize(rep, rng, thorough)
+    _validate_conformance(rep)
+    # contracts in the concrete interpretation (about 1 ms per evaluation)
     alph_sizes = range(2, 7) if thorough else range(2, 5)
     maxL = 5 if thorough else 4
     per_len = None if thorough else 12
@@ -115,8 +119,6 @@ def run(rep):
                         _check(rep, w, 'tangermeme.ersatz.delete', ersatz.delete, [X, st, en], {}, {},
                                ('del', A, s, st, en), sample={'fn': 'delete', 'X': dec(X, alphabet), 'start': st, 'end': en})
     rep.mark_exhaustive('substitute/insert/delete on the listed small scope' + ('' if thorough else ' (sequences sampled per length)'))
-    _multisub_and_randomize(rep, rng, thorough)
-    _validate_conformance(rep)
     # seeded random larger cases
     n_rand = 5000 if thorough else 300
     for k in range(n_rand):
@@ -300,7 +302,7 @@ def check_edit(case):
             if got is None or Y.shape[0] != B:
                 out.append('%s output is not a valid one-hot encoding of shape (batch, alphabet, *)' % fn)
             elif got != exp:
-                out.append('%s: got %s expected %s' % (fn, got[:3], exp[:3]))
+                out.append('%s result is not exactly the requested string edit (and nothing else) of the input batch: got %s expected %s' % (fn, got[:3], exp[:3]))
     _frame(out, fn, base, base0, margs, margs0)
     return out
 
@@ -353,7 +355,7 @@ def check_multisub(case):
             if got is None or tuple(Y.shape) != tuple(X.shape):
                 out.append('multisubstitute output is not a valid one-hot encoding of the input shape')
             elif got != exp:
-                out.append('multisubstitute != sequential substitution: got %s expected %s' % (got[:3], exp[:3]))
+                out.append('multisubstitute result differs from the sequential substitution of the motifs at the requested positions: got %s expected %s' % (got[:3], exp[:3]))
     _frame(out, 'multisubstitute', base, base0, margs, margs0)
     return out
 
@@ -415,7 +417,7 @@ def _word(rng, alphabet, n):
     return ''.join(rng.choice(alphabet) for _ in range(n))
 
 
-def _gen_common(rng, maxB=5, lens=None):
+def _gen_common(rng, maxB=6, lens=None):
     A = rng.randint(2, 6)
     alphabet = list(LETTERS[:A])
     if rng.random() < 0.35:
@@ -445,7 +447,9 @@ def _gen_motif(rng, alphabet, B, L, n, xdtype, bad=True):
             return {'form': 'xview', 'offset': rng.randint(0, L - n), 'n': n}
         return {'form': 'str', 's': _word(rng, alphabet, n)}
     if r < 0.79:      # batch neither 1 nor B: must be rejected, not broadcast (also when it divides B)
-        k = rng.choice([x for x in (2, 3, 4, 6, 8, 10) if x != B])
+        ks = [x for x in (2, 3, 4, 6, 8, 10) if x != B]
+        div = [x for x in ks if B % x == 0 or x % B == 0]
+        k = rng.choice(div if div and rng.random() < 0.6 else ks)
         return {'form': 'tensor', 'rows': [_word(rng, alphabet, n) for _ in range(k)], 'dtype': mdt}
     if r < 0.85:      # other alphabet size
         A2 = A + 1 if (A == 2 or rng.random() < 0.5) else A - 1
@@ -468,20 +472,22 @@ def _gen_edit(rng):
     alphabet, B, L = c['alphabet'], len(c['seqs']), len(c['seqs'][0])
     fn = c['fn'] = rng.choice(['substitute', 'substitute', 'insert', 'insert', 'delete'])
     if fn == 'delete':
-        c['start'] = rng.choice([-1, 0, 0, 1, L - 1, L, rng.randint(-3, L + 3), rng.randint(0, L)])
-        c['end'] = rng.choice([0, 1, L - 1, L, L, L + 1, rng.randint(-3, L + 3), rng.randint(0, L), c['start'] + 1])
+        st = c['start'] = rng.choice([-1, 0, 0, 1, L - 1, L, rng.randint(-3, L + 3), rng.randint(0, L), rng.randint(0, L), rng.randint(0, L)])
+        c['end'] = rng.choice([0, L, L, L + 1, st, st + 1, st + 1, rng.randint(-3, L + 3),
+                               rng.randint(st + 1, max(st + 1, L)), rng.randint(st + 1, max(st + 1, L)), rng.randint(st + 1, max(st + 1, L))])
         return c
-    n = rng.choice([1, 1, 2, 3, rng.randint(1, 8), L, L + 1])
+    n = rng.choice([1, 1, 2, min(3, L), rng.randint(1, max(1, min(8, L))), rng.randint(1, max(1, min(8, L))), L, L + 1])
     c['motif'] = m = _gen_motif(rng, alphabet, B, L, n, c['dtype'])
     n = len(motif_info(m, alphabet, c['seqs'])[0][0])
-    c['start'] = rng.choice([None, None, rng.randint(-3, L + 3), 0, L - n, L - n + 1, L, -1, rng.randint(0, max(0, L - n))])
+    c['start'] = rng.choice([None, None, rng.randint(-3, L + 3), 0, L - n, L - n + 1, L, -1,
+                             rng.randint(0, max(0, L - n)), rng.randint(0, max(0, L - n)), rng.randint(0, max(0, L - n))])
     c['omit_start'] = rng.random() < 0.5
     c['pass_alphabet'] = not (alphabet == list('ACGT') and rng.random() < 0.6)
     return c
 
 
 def _gen_multisub(rng):
-    c = _gen_common(rng, maxB=4, lens=[rng.randint(3, 14), rng.randint(3, 14), rng.randint(15, 60)])
+    c = _gen_common(rng, maxB=4, lens=[rng.randint(3, 14), rng.randint(8, 30), rng.randint(15, 60)])
     c['kind'] = 'multisub'
     alphabet, B, L = c['alphabet'], len(c['seqs']), len(c['seqs'][0])
     nm = rng.choice([1, 1, 2, 2, 3, 3, 4, 5])
@@ -496,7 +502,7 @@ def _gen_multisub(rng):
         c['spacing'] = rng.choice([0, 0, 1, 2, 3, -1]) if nm > 1 else rng.randint(0, 3)
     else:
         c['spacing'] = [rng.choice([0, 0, 1, 2, 3, 4, -1]) for _ in range(nm - 1)]
-    c['start'] = rng.choice([None, None, 0, rng.randint(-2, L + 1), rng.randint(0, L // 2)])
+    c['start'] = rng.choice([None, None, 0, 0, rng.randint(-2, L + 1), rng.randint(0, L // 2), rng.randint(0, L // 4)])
     c['omit_start'] = rng.random() < 0.5
     c['pass_alphabet'] = not (alphabet == list('ACGT') and rng.random() < 0.6)
     return c
@@ -513,8 +519,9 @@ def _gen_randomize(rng, k):
     c = _gen_common(rng, maxB=5, lens=[2, 3, rng.randint(4, 14), rng.randint(4, 14), rng.randint(15, 60)])
     c['kind'] = 'randomize'
     A, B, L = len(c['alphabet']), len(c['seqs']), len(c['seqs'][0])
-    c['start'] = rng.choice([0, 0, 1, -1, -2, rng.randint(-3, L + 3), rng.randint(0, L - 1), rng.randint(0, L - 1)])
-    c['end'] = rng.choice([L - 1, L - 1, L, L + 1, -1, -2, rng.randint(-3, L + 3), rng.randint(1, L), c['start'] + 1, c['start'] + 1])
+    st = c['start'] = rng.choice([0, 0, 1, -1, -2, rng.randint(-3, L + 3), rng.randint(0, L - 1), rng.randint(0, L - 1), rng.randint(0, L - 1)])
+    c['end'] = rng.choice([L - 1, L, L + 1, -1, -2, rng.randint(-3, L + 3), st, st + 1, st + 1,
+                           rng.randint(st + 1, max(st + 1, L - 1)), rng.randint(st + 1, max(st + 1, L - 1)), rng.randint(st + 1, max(st + 1, L - 1))])
     c['n'] = rng.choice([1, 1, 2, 3, 5])
     c['seed'] = k
     c['rs'] = rng.choice(['int', 'int', 'obj', 'none'])
@@ -574,6 +581,36 @@ def _variants_grid(rep):
     rep.mark_exhaustive('dtype x layout grid (8 dtypes x 4 memory layouts x 5 primitives, boundary positions, one fixed batch)')
 
 
+def _reject_grid(rep):
+    """requests every primitive must refuse (never broadcast, clip or encode loosely), at an
+    otherwise valid position: motif batch k not in {1, B} - including k dividing B and k a multiple
+    of B -, motif over another alphabet size, unknown character in a string motif, all-zero column in
+    a tensor motif; plus the matching accepted request (k = 1, k = B) as a control"""
+    alphabet = list('ACGT')
+    words = ['GT', 'CA', 'TG', 'AA', 'CC', 'GA', 'TC', 'AG']
+    for B in (1, 2, 3, 4, 6):
+        seqs = [('ACGTTGCA' * 2)[i:i + 7] for i in range(B)]
+        bad = [{'form': 'tensor', 'rows': words[:k], 'dtype': 'int8'} for k in (1, 2, 3, 4, 6, 8)]
+        bad += [{'form': 'tensor', 'rows': ['AC'], 'dtype': 'int8', 'alphabet': list('ACG')},
+                {'form': 'tensor', 'rows': ['AB'], 'dtype': 'int8', 'alphabet': list('ACGTB')},
+                {'form': 'tensor', 'rows': ['AN'], 'dtype': 'int8'}, {'form': 'tensor', 'rows': ['NA'] * B, 'dtype': 'float32'},
+                {'form': 'str', 's': 'AN'}, {'form': 'str', 's': 'NA'}, {'form': 'str', 's': 'N'}, {'form': 'str', 's': 'AZ'}, {'form': 'str', 's': 'a'}]
+        for mi, m in enumerate(bad):
+            for start in (0, 1, None):
+                for fn in ('substitute', 'insert'):
+                    case = {'kind': 'edit', 'fn': fn, 'alphabet': alphabet, 'seqs': seqs, 'motif': m, 'start': start, 'pass_alphabet': bool(mi % 2)}
+                    for what in check_edit(case):
+                        rep.violation(what, case)
+                    rep.case(('rg', fn, B, mi, start), nontrivial=motif_info(m, alphabet, seqs)[1] is False, section='reject:' + fn)
+                for others in (0, 1, 2):
+                    ms = ['C'] * others + [m if m['form'] != 'str' else m['s']]
+                    case = {'kind': 'multisub', 'alphabet': alphabet, 'seqs': seqs, 'motifs': ms, 'spacing': 1 if others != 1 else [0], 'start': start}
+                    for what in check_multisub(case):
+                        rep.violation(what, case)
+                    rep.case(('rg', 'ms', B, mi, start, others), nontrivial=motif_info(m, alphabet, seqs)[1] is False, section='reject:multisubstitute')
+    rep.mark_exhaustive('must-reject grid: batch 1,2,3,4,6 x motif batch 1,2,3,4,6,8 / other alphabet size / unknown character x substitute, insert, multisubstitute')
+
+
 def _small_multisub(rep, thorough):
     """exhaustive small scope for multisubstitute: every L <= maxL, 1-3 motifs of length 1-2, every
     spacing vector over [-1, smax], every start in [-3, L+3] and None; the motif form cycles through
@@ -631,7 +668,7 @@ def _small_randomize(rep, thorough):
 
 
 def _variants_random(rep, rng, thorough):
-    n_edit, n_ms, n_rz = (12000, 5000, 4000) if thorough else (1200, 500, 400)
+    n_edit, n_ms, n_rz = (15000, 6000, 5000) if thorough else (2000, 800, 600)
     for k in range(n_edit):
         if rep.out_of_time():
             return
